@@ -86,6 +86,10 @@ func Shrink(t *testing.T, sc *Scenario, tier string, start RunResult, target *Vi
 			r.Tapes.Sched = trimZeros(r.Tapes.Sched)
 			r.Tapes.Fault = trimZeros(r.Tapes.Fault)
 			if tapeWeight(r.Tapes) <= tapeWeight(best.Tapes) {
+				if os.Getenv("VERIF_SHRINK_DEBUG") != "" {
+					r2 := ExecRun(t, sc, sim.ReplayTapes(r.Tapes), tier, false)
+					fmt.Fprintf(os.Stderr, "shrink accept exec=%d weight=%d cand=%d/%d/%d realised=%d/%d/%d reverify=%v samehash=%v\n", execs, tapeWeight(r.Tapes), len(d.Gen), len(d.Sched), len(d.Fault), len(r.Tapes.Gen), len(r.Tapes.Sched), len(r.Tapes.Fault), hasViolation(r2, target), r2.LogHash == r.LogHash)
+				}
 				best = r
 				return true
 			}
